@@ -3,6 +3,9 @@ CONSTANTS NB = 2
  MaxCrash = 2
  RepairTornTail = FALSE
  RepairAtomicContext = FALSE
+ MaxEdge = 0
+ ScanStride = "align"
+ CaskAdvance = "align"
  RepairScanPromotes = FALSE
 INVARIANTS TypeOK Opens StableNotOlder StableClosed DurablyClosed AccountsExact ContextFresh
 CHECK_DEADLOCK FALSE
